@@ -223,7 +223,7 @@ def _build():
     _REG["C09"] = seq_spec(
         "C09",
         "fault_enumeration",
-        "seeded base histories (<=14 building calls, world/programs/interleaving from VERIF_SEED); at EVERY position of every base history EVERY fault-catalogue entry constructible in the current state (simlib/faults.py, ~60 kinds) and every read-only call is issued and followed by a full-state comparison; two-step fork faults (a copy rebuilt from the call log is first brought to within one clock period of the maximum sequence duration, then a call whose automatic buffer no longer fits must be refused without trace); a twin that receives only the successful timeline-changing calls is compared after each of them (continuous form of reproducibility from the record of successful calls); restarts through abstract/legacy/build/switch paths at seeded positions; the run continues on the restored object and RefSched keeps judging it (liveness). non-trivial = the history reached >=2 of the biased states (pending fall time, open EOM block, pending SLM mask, near max duration, measured); distinct = distinct concrete op traces",
+        "seeded base histories (<=14 building calls, world/programs/interleaving from VERIF_SEED); in four runs out of five at EVERY position of every base history (in the fifth at a seeded subset of positions and entries, so that state left behind by a single query or refused call can go stale) EVERY fault-catalogue entry constructible in the current state (simlib/faults.py, ~60 kinds) and every read-only call is issued and followed by a full-state comparison; two-step fork faults (a copy rebuilt from the call log is first brought to within one clock period of the maximum sequence duration, then a call whose automatic buffer no longer fits must be refused without trace); a twin that receives only the successful timeline-changing calls is compared after each of them (continuous form of reproducibility from the record of successful calls); restarts through abstract/legacy/build/switch paths at seeded positions; the run continues on the restored object and RefSched keeps judging it (liveness). non-trivial = the history reached >=2 of the biased states (pending fall time, open EOM block, pending SLM mask, near max duration, measured); distinct = distinct concrete op traces",
         A.make_profile(
             ops_per_channel=(2, 6),
             max_restarts=8,
